@@ -155,17 +155,28 @@ def compare(model_res, impl, fmt="tabs", ncols=None):
         io = NEG_ZERO.sub(b"0", io)
     if mo != io:
         ok = False
+        runs, cut = list(model_res["ties"]), 0
+        if len(runs) >= 2 and runs[-2] == 0:
+            runs, cut = runs[:-2], runs[-1]
         if model_res["unordered"]:
             a, b = split_rows(mo, fmt, ncols), split_rows(io, fmt, ncols)
             if a is None or b is None:
-                ok = sorted(mo) == sorted(io)      # same bytes in some order (rows ambiguous in this format)
-            elif len(a) == len(b) == sum(model_res["ties"]):
+                # same bytes in some order (rows ambiguous in this format); when a LIMIT cuts through a run of ties the
+                # model shows the whole run and there is nothing to compare row by row: no verdict
+                ok = True if cut else sorted(mo) == sorted(io)
+            elif len(a) == sum(runs) and len(b) == sum(runs) - ((runs[-1] - cut) if cut else 0):
                 ok = True
                 pos = 0
-                for run in model_res["ties"]:
+                for ri, run in enumerate(runs):
                     ka = [x if isinstance(x, bytes) else x.encode() for x in a[pos:pos + run]]
                     kb = [x if isinstance(x, bytes) else x.encode() for x in b[pos:pos + run]]
                     pos += run
+                    if cut and ri == len(runs) - 1:
+                        # a LIMIT cuts through this run of ties: the implementation shows `cut` of its rows, any of them
+                        ka, kb = kb, ka
+                        spare = len(kb) - len(ka)
+                    else:
+                        spare = 0
                     # identical rows pair off first; what is left may pair up to float rendering
                     rest = []
                     for x in ka:
@@ -179,6 +190,8 @@ def compare(model_res, impl, fmt="tabs", ncols=None):
                             ok = False
                             break
                         kb.pop(hit)
+                    if ok and len(kb) != spare:
+                        ok = False
                     if not ok:
                         break
         elif model_res["inexact"]:
